@@ -59,6 +59,9 @@ def body(chk):
     chk.assumptions += ["units are pinned to the frozen Layout.tla table", "level-1.1 nested per-line structs (platform_velocity.x ...): "
                         "placement free, but a numeric per-line variable whose qualified name contains both components must exist",
                         "a blank text header field may surface as absent or as the empty string"]
+    from harness import sessioncheck
+
+    sessioncheck.standard(chk)
     chk.finish(rule="a case = one product (1-2 images) with every line-prefix field of every line holding a token of a rotating "
                     "class; + optional-header blank/zero/filled cases, midnight / year-crossing lines, random class assignments; "
                     "evaluations = leaves compared; distinct = (level, case tag)", exhaustive=False, extra={"leaves_compared": total})
